@@ -179,6 +179,7 @@ def Call.run : Call → M Unit
 /-- the documented contract of each call -/
 def Call.Pre (Den : State → Prior → WName → Prop) (s : State) : Call → Prop
   | .setBit b _ _ => b < Gen.HEADER_SIZE
+  | .setLimit v => v ≤ 65535
   | .setTsig m rr => rr.keyName.WF ∧ (tsigAlgName m).WF ∧ rr.timeSigned.length = 6 ∧ rr.serverTime.length = 6
   | .addRr _ h o _ _ _ _ => o.WF ∧ HintOK Den s h o
   | .addRrset _ h o _ _ _ _ => o.WF ∧ HintOK Den s h o
@@ -205,7 +206,8 @@ structure WriterSafe where
   /-- the caller's `HintPointerVec` is not part of the writer -/
   I_hv : ∀ s v, I s → I { s with hv := v }
   Den_hv : ∀ s v p n, Den s p n → Den { s with hv := v } p n
-  new_I : ∀ buf limit s, Writer.new buf limit = .ok s → I s
+  /-- a DNS message is at most 65535 octets: so are the limits the server asks for -/
+  new_I : ∀ buf limit s, limit ≤ 65535 → Writer.new buf limit = .ok s → I s
   call : ∀ (c : Call) s, I s → c.Pre Den s →
     (c.run s).1 ≠ .panic ∧ I (c.run s).2 ∧ Mono Den s (c.run s).2
   addQuestion : ∀ qn qt qc s, I s → qn.WF →
@@ -1045,7 +1047,7 @@ def writerSafe : WriterSafe where
   Den := Writer.Den
   I_hv := i_hv
   Den_hv := fun _ _ _ _ h => h
-  new_I := new_i
+  new_I := fun buf limit s _ h => new_i buf limit s h
   call := call_safe
   addQuestion := by
     intro qn qt qc s hI hwf
